@@ -464,7 +464,7 @@ package schema
 
 //@ func ObjectSchema.convertData(o, v) -> rawData, err
 //@   requires rv_valid(v) && kind(rv_type(v)) == KindMap
-//@   requires o.fieldCache == nil
+//@   scope o.fieldCache == nil
 //@   ensures err == nil ==> (forall j int :: 0 <= j && j < rv_len(v) ==> typeOf(rv_iface(rv_key(v, j))) == type(string) && skey(v, j) in o.PropertiesValue && skey(v, j) in rawData)
 //@   ensures err == nil ==> (forall k string :: k in rawData ==> k in o.PropertiesValue && finalForm(o, v, defsOf(o), rawData, k))
 //@   ensures err == nil ==> (forall k string :: k in o.PropertiesValue && !supplied(v, k) && k in defsOf(o) ==> k in rawData)
@@ -512,7 +512,7 @@ package schema
 //@   loop 1 invariant true
 
 //@ func ObjectSchema.Unserialize(o, data) -> result, err
-//@   requires o.fieldCache == nil
+//@   scope o.fieldCache == nil
 //@   ensures kindOf(data) != KindMap && len(o.PropertiesValue) != 1 ==> err != nil
 //@   ensures err == nil ==> typeOf(result) == type(map[string]any) && result.(map[string]any) != nil && (forall k string :: k in o.PropertiesValue ==> ruleOK(o.PropertiesValue[k], k, result.(map[string]any)))
 //@   ensures err == nil && kindOf(data) == KindMap ==> (forall k string :: k in result.(map[string]any) ==> k in o.PropertiesValue && finalForm(o, rv_of(data), defsOf(o), result.(map[string]any), k))
@@ -797,6 +797,7 @@ package schema
 //@   ensures err == nil ==> fresh(res)
 //@ func AnySchema.checkAndConvert(a, data) -> res, err
 //@   ensures err == nil ==> typeOf(res) != type(map[string]any)
+//@   ensures err == nil ==> res != nil
 //@ func ObjectSchema.Unserialize(o, data) -> result, err
 //@   ensures err == nil && typeOf(result) == type(map[string]any) ==> fresh(result.(map[string]any))
 //@ func ObjectSchema.applySubObjectDefaultValues(o, propertyID, property, rawData)
@@ -810,7 +811,12 @@ package schema
 // interface-level facts that every implementation must prove.
 // ---------------------------------------------------------------------------------------------
 
-//@ invariant ObjectSchema(o): o.fieldCache != nil ==> o.defaultValue != nil && o.defaultValueType != nil
+//@ spec structOrPtrToStruct(t TypeTag) bool = kind(t) == KindStruct || (kind(t) == KindPointer && kind(elemT(t)) == KindStruct)
+//@ invariant ObjectSchema(o): o.fieldCache != nil ==> o.defaultValue != nil && o.defaultValueType != nil && rtag(o.defaultValueType) == typeOf(o.defaultValue) && structOrPtrToStruct(typeOf(o.defaultValue))
+//@ interface Type.Unserialize(this, data) -> res, err
+//@   ensures err == nil ==> res != nil
+//@ interface Type.Serialize(this, data) -> res, err
+//@   ensures err == nil ==> res != nil
 //@ invariant UnitsDefinition(u): u.BaseUnitValue != nil
 //@ nonnil *UnitDefinition
 //@ interface Type.ReflectedType(this) -> res
